@@ -150,8 +150,8 @@ func (t *Tree) Get(topic string) []interface{} {
 	t.mutex.Lock()
 	defer t.mutex.Unlock()
 
-	// get values
-	return t.get(topic, t.root)
+	// get a copy of the values (the node's slice is edited in place later)
+	return append([]interface{}(nil), t.get(topic, t.root)...)
 }
 
 func (t *Tree) get(topic string, node *node) []interface{} {
